@@ -3,7 +3,7 @@
    free-running threads) are judged with AuthCache's own property operators; for forced schedules the recorded fetch log must
    also equal the one the model behaviour predicts. *)
 EXTENDS Naturals, Sequences, FiniteSets, TLC, Json, IOUtils
-Obs == JsonDeserialize(IOEnv.OBS_FILE)   \* sequence of [fetches, returned, R, expected, hasExpected]
+Obs == JsonDeserialize(IOEnv.OBS_FILE)   \* sequence of [fetches, returned, R, expected, hasExpected, nfails, expectedFails]
 VARIABLE i
 Init == i \in 1..Len(Obs)
 Next == UNCHANGED i
@@ -12,7 +12,7 @@ F == Obs[i].fetches
 FetchOnce == \A a, b \in 1..Len(F) : (a < b /\ F[a].k = F[b].k) => F[b].at >= F[a].at + Obs[i].R
 ReturnsFresh == \A r \in 1..Len(Obs[i].returned) :
                    LET x == Obs[i].returned[r] IN x.data >= 1 /\ x.data <= Len(F) /\ F[x.data].k = x.k
-AsPredicted == Obs[i].hasExpected => F = Obs[i].expected
+AsPredicted == Obs[i].hasExpected => (F = Obs[i].expected /\ Obs[i].nfails = Obs[i].expectedFails)
 Report == /\ IF FetchOnce THEN TRUE ELSE PrintT(<<"DISAGREE", i, "FetchOnce">>)
           /\ IF ReturnsFresh THEN TRUE ELSE PrintT(<<"DISAGREE", i, "ReturnsFresh">>)
           /\ IF AsPredicted THEN TRUE ELSE PrintT(<<"DISAGREE", i, "AsPredicted">>)
